@@ -47,8 +47,8 @@ def confirm(prop_name, tier, task_name, values, timeout=1500):
 def confirm_race(prop_name, tier, task_name, values, threads=4, timeout=2400):
     """Confirmation of a footprint conflict on the real, compiled code: the concrete harness runs under valgrind's helgrind with
     OMP_NUM_THREADS > 1.  libgomp's own synchronisation is invisible to helgrind (it reports conflicts *inside* libgomp), so only a
-    report whose two conflicting accesses both have their innermost frame in an outlined OpenMP body (`<fn>._omp_fn.<k>`) of a
-    freshly built library counts."""
+    report whose two conflicting accesses are both inside a freshly built library with an outlined OpenMP body
+    (`<fn>._omp_fn.<k>`) of that library on their call chain counts."""
     from . import replaylibs
     d = replaylibs.build(with_fft=True)
     tdir = tempfile.mkdtemp(prefix="verif_hg_")
@@ -73,10 +73,14 @@ def confirm_race(prop_name, tier, task_name, values, threads=4, timeout=2400):
             continue
         first, second = blk.split("This conflicts with", 1)
         tops = []
+        good = True
         for half in (first, second):
-            m = re.search(r"==\d+==\s+at 0x[0-9A-Fa-f]+: (\S+) \(([^)]*)\)", half)
-            tops.append((m.group(1), m.group(2)) if m else ("?", "?"))
-        if all("_omp_fn" in t[0] and d in t[1] for t in tops):
+            frames = re.findall(r"==\d+==\s+(?:at|by) 0x[0-9A-Fa-f]+: (\S+) \(([^)]*)\)", half)[:8]
+            tops.append(frames[0] if frames else ("?", "?"))
+            # the access itself is in the freshly built library (possibly in a helper the loop body calls) and an outlined OpenMP
+            # body of that library is on the call chain
+            good = good and bool(frames) and d in frames[0][1] and any("_omp_fn" in f and d in l for f, l in frames)
+        if good:
             hits.append(tops)
     ran = "VGCHILD-DONE" in out
     if hits:
